@@ -49,6 +49,32 @@ func runC04(c *eng.Ctx) {
 			}
 			c.Check(added, fmt.Sprintf("same-commit-as-the-file[%d]", i), r.Instr, f, "the registration is in the edit log that is committed together with the new file", "")
 		}
+		// F39: a flush whose builder held no key abandons its table - no NewFile record - and must not leave a needs-rollup mark for
+		// that number: the mark keeps the empty file alive and every later rollup pass of the family fails on it
+		for i, ab := range c.Some(f, invokeOn("", "Abandon"), "builder.Abandon()") {
+			cleared := p.Sites(f, func(p *eng.Prog, in ssa.Instruction) bool {
+				st, ok := in.(*ssa.Store)
+				if !ok || !eng.StoreField(sfT+".outputs")(p, in) {
+					return false
+				}
+				if eng.IsNilConst(st.Val) {
+					return true
+				}
+				sl, ok := eng.Unwrap(st.Val).(*ssa.Slice)
+				if !ok || sl.High == nil {
+					return false
+				}
+				k, isC := eng.ConstInt(sl.High)
+				return isC && k == 0
+			})
+			w, marked := eng.Reaches(f, ab.Instr, reg, cleared)
+			detail := ""
+			if marked {
+				detail = "after Abandon() the flusher still reaches the registration at " + p.InstrPos(w) + " with the abandoned number in sf.outputs"
+			}
+			c.Check(!marked, fmt.Sprintf("no-mark-for-an-abandoned-table[%d]", i), ab.Instr, f,
+				"a needs-rollup mark is registered only for a file this commit records as a table (NewFile); an abandoned (empty) builder registers nothing", detail)
+		}
 	})
 
 	// ---- 2/3. rollup work ------------------------------------------------------------------------------------------------------
